@@ -184,10 +184,24 @@ def tlc_trace(tla, shards, pid, cfg="Trace.cfg", par=None, env=None, timeout=360
         if r["mismatches"]:
             want = {ln for ln, _ in r["mismatches"]}
             evs = {}
+            zone = None
             with open(r["shard"]) as f:
                 for i, line in enumerate(f, 1):
+                    if line.startswith('{"cls":"zone-') or '"op":"zone"' in line[:400]:
+                        try:
+                            zr = json.loads(line)
+                            if zr.get("op") == "zone":
+                                zone = {"name": zr.get("name"), "cls": zr.get("cls"), "src": zr.get("src", ""),
+                                        "xyear": zr.get("xyear", 0)}
+                        except Exception:
+                            pass
                     if i in want:
                         evs[i] = json.loads(line)
+                        if zone:
+                            evs[i]["_zone"] = zone["name"]
+                            evs[i]["_zone_cls"] = zone["cls"]
+                            evs[i]["_zone_src"] = zone["src"]
+                            evs[i]["_zone_xyear"] = zone["xyear"]
             for ln, why in r["mismatches"]:
                 mism.append((r["shard"], ln, why, evs.get(ln)))
     n = sum(r["distinct"] - 1 for r in results)
